@@ -491,7 +491,7 @@ func (w *world) buildPKCS7() {
 	signed := fin("p7.signed.sm2", func() ([]byte, error) {
 		sd, err := pkcs7.NewSMSignedData(w.msg)
 		must("p7 signed", err)
-		must("p7 signer", sd.AddSignerChain(w.leaf, w.sm2B, []*smx509.Certificate{w.root}, pkcs7.SignerInfoConfig{
+		must("p7 signer", sd.AddSigner(w.leaf, w.sm2B, pkcs7.SignerInfoConfig{
 			ExtraSignedAttributes:   []pkcs7.Attribute{{Type: asn1.ObjectIdentifier{1, 2, 3, 9}, Value: "extra"}},
 			ExtraUnsignedAttributes: []pkcs7.Attribute{{Type: asn1.ObjectIdentifier{1, 2, 3, 10}, Value: 7}},
 		}))
@@ -521,13 +521,6 @@ func (w *world) buildPKCS7() {
 		must("p7 signed rsa", err)
 		sd.SetDigestAlgorithm(pkcs7.OIDDigestAlgorithmSHA256)
 		must("p7 signer", sd.AddSigner(w.rsaCert, w.rsa1, pkcs7.SignerInfoConfig{}))
-		return sd.Finish()
-	})
-	fin("p7.signed.ecdsa", func() ([]byte, error) {
-		sd, err := pkcs7.NewSignedData(w.msg)
-		must("p7 signed ecdsa", err)
-		sd.SetDigestAlgorithm(pkcs7.OIDDigestAlgorithmSHA256)
-		must("p7 signer", sd.AddSigner(w.ecCert, w.ecdsaP256, pkcs7.SignerInfoConfig{}))
 		return sd.Finish()
 	})
 	fin("p7.degenerate", func() ([]byte, error) { return pkcs7.DegenerateCertificate(w.leaf.Raw) })
